@@ -22,8 +22,38 @@ func init() {
 // `exempt` may claim an access with a reason.
 func guardedAccessRule(c *Ctx, le *LockEngine, rule string, fns []*ssa.Function, T *types.Named, field, guard string,
 	exempt func(v GuardVerdict) string) int {
-	vs, err := le.CheckGuardedBy(fns, T, field, guard)
-	if err != nil {
+	// the guard is discovered: the mutex field of T under which the accesses are
+	// (best) covered; `guard` is only a hint that wins ties, so renaming the
+	// mutex does not matter.
+	var vs []GuardVerdict
+	var err error
+	best := -1
+	if st, ok := T.Underlying().(*types.Struct); ok {
+		for i := 0; i < st.NumFields(); i++ {
+			ts := st.Field(i).Type().String()
+			if ts != "sync.Mutex" && ts != "sync.RWMutex" {
+				continue
+			}
+			cand, cerr := le.CheckGuardedBy(fns, T, field, st.Field(i).Name())
+			if cerr != nil {
+				err = cerr
+				continue
+			}
+			bad := 0
+			for _, v := range cand {
+				if v.Exempt == "" && !v.OK && (exempt == nil || exempt(v) == "") {
+					bad++
+				}
+			}
+			if best < 0 || bad < best || (bad == best && st.Field(i).Name() == guard) {
+				best, vs = bad, cand
+			}
+		}
+	}
+	if best < 0 {
+		if err == nil {
+			err = fmt.Errorf("no mutex field in %s guards %s", T.Obj().Name(), field)
+		}
 		c.Bad(rule, T.Obj().Name()+"."+field, 0, "anchor: "+err.Error())
 		return 0
 	}
